@@ -46,3 +46,27 @@ def scratch_dir() -> str:
 
     base = "/dev/shm" if os.path.isdir("/dev/shm") and os.access("/dev/shm", os.W_OK) else None
     return tempfile.mkdtemp(prefix="vf-", dir=base)
+
+
+def rotate_environment(ctx, shard_index: int) -> None:
+    """Behaviour must not depend on the process environment: shards rotate through logging configurations and time zones.
+
+    index % 4 == 1: library logging enabled at DEBUG (records go to a NullHandler, nothing is printed);
+    index % 4 == 3: TZ=Europe/Oslo (a zone with daylight saving); otherwise logging disabled and the sandbox's zone.
+    """
+    import time
+
+    mode = shard_index % 4
+    if mode == 1:
+        logging.disable(logging.NOTSET)
+        root = logging.getLogger()
+        root.handlers[:] = [logging.NullHandler()]
+        root.setLevel(logging.DEBUG)
+        logging.getLogger("han").setLevel(logging.DEBUG)
+        ctx.seen("environment", "logging=DEBUG(NullHandler)")
+    elif mode == 3:
+        os.environ["TZ"] = "Europe/Oslo"
+        time.tzset()
+        ctx.seen("environment", "TZ=Europe/Oslo")
+    else:
+        ctx.seen("environment", "logging disabled, TZ as in the sandbox")
